@@ -5,7 +5,7 @@ use serde_json::{json, Value};
 pub fn dispatch(op: &str, _req: &Value) -> Option<Value> {
     match op {
         "hooks_available" => Some(json!({"hooks": false})),
-        "hook_range_of_ranges" | "hook_ident" | "hook_is_keyword" | "hook_dedup" | "hook_wildcards" | "hook_split_trace" => Some(json!({"no_hooks": true})),
+        "hook_range_of_ranges" | "hook_ident" | "hook_is_keyword" | "hook_dedup" | "hook_wildcards" | "hook_split_trace" | "hook_sqlite_date" => Some(json!({"no_hooks": true})),
         _ => None,
     }
 }
@@ -34,6 +34,7 @@ pub fn dispatch(op: &str, req: &Value) -> Option<Value> {
             Some(json!({"value": v, "quote": q.map(|c| c.to_string())}))
         }
         "hook_is_keyword" => Some(json!({"keyword": h::is_keyword(crate::ops::s(req, "ident"), dialect(req))})),
+        "hook_sqlite_date" => Some(json!({"sql": h::sqlite_date_literal(crate::ops::s(req, "value"))})),
         "hook_dedup" => {
             let items: Vec<(String, Vec<String>)> = req["items"]
                 .as_array()
